@@ -182,6 +182,7 @@ func (m *Machine) ensureInit(pkg *ssa.Package) {
 	m.pkgState[pkg] = 1
 	if !m.P.wantInit(pkg.Pkg.Path()) {
 		m.pkgState[pkg] = 2
+		m.emptyMapsOf(pkg)
 		return
 	}
 	init := pkg.Func("init")
@@ -191,6 +192,44 @@ func (m *Machine) ensureInit(pkg *ssa.Package) {
 		m.initDepth--
 	}
 	m.pkgState[pkg] = 2
+}
+
+// emptyMapsOf: the initialiser of pkg is not executed (deny list: logging, validation and codec
+// libraries whose start-up work is irrelevant and expensive). A package-level map that the real
+// initialiser creates is then at least not nil - it is empty - so that code which registers
+// something in it (govalidator.TagMap["cidr"] = ...) behaves as it does in the real program instead
+// of faulting on a nil map. Maps the package leaves nil stay nil.
+func (m *Machine) emptyMapsOf(pkg *ssa.Package) {
+	init := pkg.Func("init")
+	if init == nil {
+		return
+	}
+	for _, b := range init.Blocks {
+		for _, ins := range b.Instrs {
+			st, ok := ins.(*ssa.Store)
+			if !ok {
+				continue
+			}
+			g, ok := st.Addr.(*ssa.Global)
+			if !ok || g.Pkg != pkg {
+				continue
+			}
+			mk, ok := st.Val.(*ssa.MakeMap)
+			if !ok {
+				continue
+			}
+			mt, ok := mk.Type().Underlying().(*types.Map)
+			if !ok {
+				continue
+			}
+			if _, done := m.globals[g]; done {
+				continue
+			}
+			cell := new(value)
+			*cell = newMap(mt.Key(), mt.Elem())
+			m.globals[g] = cell
+		}
+	}
 }
 
 // ---- frames ----
